@@ -30,7 +30,8 @@ def extracted_note(pid):
         return "", 0
     return (f" Second tie for this property: {n} equivalence theorems over the regenerated definitions of the groups "
             f"{', '.join(mods)} (lean/KonstVerif/Extracted/Equiv/); a change to the text of any of those functions either keeps "
-            f"them checking or is reported."), n
+            f"them checking, or is kernel-proved to leave each changed definition equal to the committed one (bridge, DESIGN.md "
+            f"section 11; the step from there to the theorems is replacement of equals, argued not kernel-checked), or is reported."), n
 checks = []
 for pid in sorted(PROPS):
     P = PROPS[pid]
